@@ -378,6 +378,8 @@ class Interp:
                 if last in ("append", "extend", "insert", "pop", "get", "setdefault", "update",
                             "items", "keys", "values", "copy", "clear", "reverse", "add"):
                     return self.native(fn, args, kwargs)
+            if isinstance(fn, types.BuiltinMethodType) and isinstance(fn.__self__, slice) and name.split(".")[-1] == "indices" and len(args) == 1:
+                return _slice_indices_model(self, fn.__self__, args[0])
             if isinstance(fn, types.BuiltinMethodType) and isinstance(fn.__self__, str) and name.split(".")[-1] == "join" and len(args) == 1:
                 return _str_join_model(self, fn.__self__, args[0])
             self.ctx.note(f"unmodelled-call:{name}")
@@ -2154,6 +2156,29 @@ def _m_len(interp, v):
     if isinstance(v, Sym):
         raise Undecided(f"len of {v!r}")
     return interp.native(len, [v], {})
+
+
+def _slice_indices_model(interp, sl, length):
+    """slice.indices(len) as CPython's PySlice_AdjustIndices computes it (Objects/sliceobject.c), for symbolic components."""
+    n = term(length)
+    if sl.step is None:
+        step = z3.IntVal(1)
+    else:
+        step = term(sl.step)
+        if interp.truth(wrap(step == 0)):
+            raise PyRaise(ValueError("slice step cannot be zero"))
+    neg = step < 0
+    lower = z3.If(neg, z3.IntVal(-1), z3.IntVal(0))
+    upper = z3.If(neg, n - 1, n)
+
+    def adj(v, default):
+        if v is None:
+            return default
+        t = term(v)
+        return z3.If(t < 0, z3.If(t + n < lower, lower, t + n), z3.If(t > upper, upper, t))
+    start = adj(sl.start, z3.If(neg, upper, lower))
+    stop = adj(sl.stop, z3.If(neg, lower, upper))
+    return (SInt(z3.simplify(start)), SInt(z3.simplify(stop)), SInt(z3.simplify(step)))
 
 
 def _m_set(interp, v=None):
